@@ -1,5 +1,6 @@
 //! `vh` — conformance harness binding the TLA+ specifications in /verif/spec to the
 //! brave/sta-rs crates built from /repo's working tree.
+mod derive;
 mod field;
 mod ggm;
 mod shamir;
@@ -19,6 +20,7 @@ fn main() {
   }
   let a = Args::parse(&argv[1..]);
   let rep = match argv[0].as_str() {
+    "derive-replay" => derive::replay(&a),
     "field-record" => field::record(&a),
     "shamir-record" => shamir::record(&a),
     "cert-record" => shamir::cert(&a),
@@ -33,6 +35,7 @@ fn main() {
     "tamper-sweep" => star2::tamper_sweep(&a),
     "adss-sizes" => star2::adss_sizes(&a),
     "secret-scan" => star2::secret_scan(&a),
+    "cipher-check" => star2::cipher_check(&a),
     other => {
       eprintln!("unknown subcommand {other}");
       std::process::exit(2);
